@@ -54,10 +54,12 @@ for P in "${PATCHES[@]}"; do
     # 2. every check's quick tier against the patched tree
     DET=""; ROW=""
     if ( cd "$W/harness" && cargo build --profile checked --bins >"$W/build.log" 2>&1 ) && \
-       { ! echo "$CHECKS" | grep -q C07 || ( cd "$W/harness" && cargo build --release --bin tracer >>"$W/build.log" 2>&1 ); }; then
+       { ! echo "$CHECKS" | grep -q C07 || ( cd "$W/harness" && cargo build --release --bin tracer >>"$W/build.log" 2>&1 && { ! grep -q 'profile.unopt' Cargo.toml || cargo build --profile unopt --bin tracer >>"$W/build.log" 2>&1; } ); }; then
         for C in $CHECKS; do
             rm -rf "$W/out/replays"
             if [ "$C" = "C07" ]; then
+                # as ./check does: the plain probe group is repeated on the unoptimised build
+                if [ -x "$W/harness/target/unopt/tracer" ]; then export VERIF_C07_UNOPT="$W/harness/target/unopt/tracer"; else unset VERIF_C07_UNOPT; fi
                 "$W/harness/target/release/tracer" C07 "$TIER" >"$W/run.log" 2>&1; RC=$?
             else
                 "$W/harness/target/checked/vh" "$C" "$TIER" >"$W/run.log" 2>&1; RC=$?
